@@ -6,6 +6,11 @@ package harness
 // module's real MsgServer (after the message's ValidateBasic, on a cached context that is
 // written only on success), lookups through the real gRPC query server
 // (keeper.NewQueryServer), the raw dump by iterating the module's real KV store.
+//
+// Accounts have two valid text spellings (bech32 in lower case = canonical, or in upper case). A
+// trailing `!` on an account name of an op line means "written in upper case"; dumps and single-record
+// outputs show the spelling the record stores, listings are keyed by the plain account name (lookups
+// go by account bytes).
 
 import (
 	"encoding/binary"
@@ -62,6 +67,7 @@ type exrecEnv struct {
 // exrecAddr maps a symbolic account name to its address: the name padded with '_' to 20
 // bytes (32 for names starting with 'Z'), so that the model can compute the same key bytes.
 func exrecAddr(name string) sdk.AccAddress {
+	name = exrecBase0(name)
 	if name == "-" || name == "~" || name == "" {
 		return nil
 	}
@@ -76,7 +82,21 @@ func exrecAddr(name string) sdk.AccAddress {
 	return sdk.AccAddress(b)
 }
 
+// A trailing `!` on an account name means: spell the address in UPPER-case bech32 (a valid
+// spelling of the same account; the canonical one is lower case).
+func exrecUp(name string) bool { return len(name) > 1 && strings.HasSuffix(name, "!") }
+
+func exrecBase0(name string) string {
+	if exrecUp(name) {
+		return name[:len(name)-1]
+	}
+	return name
+}
+
 func (e *exrecEnv) addrStr(name string) string {
+	if exrecUp(name) {
+		return strings.ToUpper(e.addrStr(exrecBase0(name)))
+	}
 	if name == "gov" {
 		return e.k.GetAuthority()
 	}
@@ -87,11 +107,20 @@ func (e *exrecEnv) addrStr(name string) string {
 	return a.String()
 }
 
+// spelledName is nameOfBech plus the `!` marker when the string is the upper-case spelling.
+func (e *exrecEnv) spelledName(s string) string {
+	n := e.nameOfBech(s)
+	if s != "" && s == strings.ToUpper(s) && s != strings.ToLower(s) {
+		return n + "!"
+	}
+	return n
+}
+
 func (e *exrecEnv) nameOfBech(s string) string {
 	if s == "" {
 		return "~"
 	}
-	if s == e.k.GetAuthority() {
+	if strings.ToLower(s) == e.k.GetAuthority() {
 		return "gov"
 	}
 	a, err := sdk.AccAddressFromBech32(s)
@@ -227,6 +256,12 @@ func (e *exrecEnv) execMut(ws []string) (string, bool) {
 			_, err := e.ms.MarketUpdateAcceptingOrders(ctx, msg)
 			return "", err
 		}), true
+	case "acceptingc":
+		msg := &exchange.MsgMarketUpdateAcceptingCommitmentsRequest{Admin: e.addrStr(kvArg(ws, "by")), MarketId: uint32(exrecNat(ws, "m")), AcceptingCommitments: kvArg(ws, "v") == "1"}
+		return e.run(msg, func(ctx sdk.Context) (string, error) {
+			_, err := e.ms.MarketUpdateAcceptingCommitments(ctx, msg)
+			return "", err
+		}), true
 	case "ask":
 		msg := &exchange.MsgCreateAskRequest{AskOrder: exchange.AskOrder{
 			MarketId: uint32(exrecNat(ws, "m")), Seller: e.addrStr(kvArg(ws, "o")),
@@ -290,7 +325,7 @@ func (e *exrecEnv) execMut(ws []string) (string, bool) {
 		}}
 		return e.run(msg, func(ctx sdk.Context) (string, error) { _, err := e.ms.CreatePayment(ctx, msg); return "", err }), true
 	case "payaccept":
-		// the acceptor repeats the stored payment, with the target it believes in
+		// the acceptor repeats the stored payment, with the source and the target spelled as it believes
 		src := exrecAddr(kvArg(ws, "s"))
 		p := exchange.Payment{Source: e.addrStr(kvArg(ws, "s")), SourceAmount: exrecUsd(1), ExternalId: exrecExt(kvArg(ws, "x"))}
 		if src != nil {
@@ -298,6 +333,7 @@ func (e *exrecEnv) execMut(ws []string) (string, bool) {
 				p = *ex
 			}
 		}
+		p.Source = e.addrStr(kvArg(ws, "s"))
 		p.Target = e.addrStr(kvArg(ws, "t"))
 		msg := &exchange.MsgAcceptPaymentRequest{Payment: p}
 		return e.run(msg, func(ctx sdk.Context) (string, error) { _, err := e.ms.AcceptPayment(ctx, msg); return "", err }), true
@@ -367,11 +403,11 @@ func (e *exrecEnv) showOrder(o *exchange.Order) string {
 		apS = "1"
 	}
 	assets, price := o.GetAssets(), o.GetPrice()
-	return fmt.Sprintf("o:%s:%d:%s:%s:%s:%s:%s:%s:%s", t, o.GetMarketID(), e.nameOfBech(o.GetOwner()), assets.Denom, assets.Amount, price.Denom, price.Amount, exrecShowExt(o.GetExternalID()), apS)
+	return fmt.Sprintf("o:%s:%d:%s:%s:%s:%s:%s:%s:%s", t, o.GetMarketID(), e.spelledName(o.GetOwner()), assets.Denom, assets.Amount, price.Denom, price.Amount, exrecShowExt(o.GetExternalID()), apS)
 }
 
 func (e *exrecEnv) showPayment(p *exchange.Payment) string {
-	return fmt.Sprintf("p:%s:%s:%s:%s:%s", e.nameOfBech(p.Source), p.SourceAmount.AmountOf("usd"), e.nameOfBech(p.Target), p.TargetAmount.AmountOf("usd"), exrecShowExt(p.ExternalId))
+	return fmt.Sprintf("p:%s:%s:%s:%s:%s", e.spelledName(p.Source), p.SourceAmount.AmountOf("usd"), e.spelledName(p.Target), p.TargetAmount.AmountOf("usd"), exrecShowExt(p.ExternalId))
 }
 
 func (e *exrecEnv) raw() string {
@@ -612,6 +648,13 @@ func (e *exrecEnv) itemsOf(q exrecQ) string {
 
 func (e *exrecEnv) look(ws []string) string {
 	mk, ow, dn, xs := exrecList(kvArg(ws, "mk")), exrecList(kvArg(ws, "ow")), exrecList(kvArg(ws, "dn")), exrecList(kvArg(ws, "xs"))
+	// sp=1: every account argument of the queries is spelled in upper case (the answers go by account)
+	sp := func(name string) string {
+		if kvArg(ws, "sp") == "1" {
+			return name + "!"
+		}
+		return name
+	}
 	var parts []string
 	all := "err:invalid"
 	var allOrders []*exchange.Order
@@ -640,7 +683,7 @@ func (e *exrecEnv) look(ws []string) string {
 		parts = append(parts, "m."+m+"="+e.itemsOf(exrecQ{kind: "market", arg: m}))
 	}
 	for _, o := range ow {
-		parts = append(parts, "o."+o+"="+e.itemsOf(exrecQ{kind: "owner", arg: o}))
+		parts = append(parts, "o."+o+"="+e.itemsOf(exrecQ{kind: "owner", arg: sp(o)}))
 	}
 	for _, d := range dn {
 		parts = append(parts, "d."+d+"="+e.itemsOf(exrecQ{kind: "asset", arg: d}))
@@ -661,7 +704,11 @@ func (e *exrecEnv) look(ws []string) string {
 		var its []string
 		for _, p := range r.Payments {
 			it := e.nameOfBech(p.Source) + ":" + exrecShowExt(p.ExternalId) + ":?"
-			if g, err := e.qs.GetPayment(e.ctx, &exchange.QueryGetPaymentRequest{Source: p.Source, ExternalId: p.ExternalId}); err == nil && g.Payment != nil {
+			qsrc := p.Source
+			if kvArg(ws, "sp") == "1" {
+				qsrc = strings.ToUpper(p.Source)
+			}
+			if g, err := e.qs.GetPayment(e.ctx, &exchange.QueryGetPaymentRequest{Source: qsrc, ExternalId: p.ExternalId}); err == nil && g.Payment != nil {
 				it = e.payItems([]*exchange.Payment{g.Payment})[0]
 			}
 			its = append(its, it)
@@ -671,10 +718,10 @@ func (e *exrecEnv) look(ws []string) string {
 		parts = append(parts, "gp=err:invalid")
 	}
 	for _, o := range ow {
-		parts = append(parts, "ps."+o+"="+e.itemsOf(exrecQ{kind: "paysrc", arg: o}))
+		parts = append(parts, "ps."+o+"="+e.itemsOf(exrecQ{kind: "paysrc", arg: sp(o)}))
 	}
 	for _, o := range ow {
-		parts = append(parts, "pt."+o+"="+e.itemsOf(exrecQ{kind: "paytgt", arg: o}))
+		parts = append(parts, "pt."+o+"="+e.itemsOf(exrecQ{kind: "paytgt", arg: sp(o)}))
 	}
 	parts = append(parts, "call="+e.itemsOf(exrecQ{kind: "comall"}))
 	for _, m := range mk {
@@ -817,23 +864,54 @@ func (g *exrecGen) ext() string {
 	}
 }
 
+// acct spells an account name: mostly the canonical lower-case bech32, in pct% of the cases the
+// upper-case spelling of the same account (`name!`).
+func (g *exrecGen) acctP(name string, pct int) string {
+	if name == "-" || name == "~" || name == "" || exrecUp(name) {
+		return name
+	}
+	if g.rng.Chance(pct) {
+		g.out.Count("spell:upper")
+		return name + "!"
+	}
+	return name
+}
+
+func (g *exrecGen) acct(name string) string { return g.acctP(name, 15) }
+
+// respell: an account as the record spells it, in 25% of the cases the other spelling.
+func (g *exrecGen) respell(spelled string) string {
+	if spelled == "-" || spelled == "~" || spelled == "" || !g.rng.Chance(25) {
+		return spelled
+	}
+	g.out.Count("spell:flipped")
+	if exrecUp(spelled) {
+		return exrecBase0(spelled)
+	}
+	return spelled + "!"
+}
+
 func (g *exrecGen) holdsLine() string { return "holds ow=" + strings.Join(exrecOwners, "|") }
 
 func (g *exrecGen) admin() string {
 	if g.rng.Chance(88) {
-		return "adm"
+		return g.acctP("adm", 8)
 	}
 	return Pick(g.rng, []string{"A", "B", "gov"})
 }
 
 func (g *exrecGen) lookLine() string {
 	mk := []string{"1", "2", "3", "4", "5"}
-	return "look mk=" + strings.Join(mk, "|") + " ow=" + strings.Join(exrecOwners, "|") + " dn=" + strings.Join(exrecAssets, "|") + " xs=" + strings.Join(append(append([]string{}, exrecExts...), exrecEdgeExts...), "|")
+	sp := "0"
+	if g.rng.Chance(25) {
+		sp = "1"
+	}
+	return "look mk=" + strings.Join(mk, "|") + " ow=" + strings.Join(exrecOwners, "|") + " dn=" + strings.Join(exrecAssets, "|") + " xs=" + strings.Join(append(append([]string{}, exrecExts...), exrecEdgeExts...), "|") + " sp=" + sp
 }
 
 func (g *exrecGen) createOrder() {
 	kind := Pick(g.rng, []string{"ask", "bid"})
-	m, owner, d, pd := g.market(), Pick(g.rng, exrecOwners), Pick(g.rng, exrecAssets), Pick(g.rng, exrecPrices)
+	m, owner, d, pd := g.market(), g.acct(Pick(g.rng, exrecOwners)), Pick(g.rng, exrecAssets), Pick(g.rng, exrecPrices)
 	unit := uint64(2)
 	if kind == "bid" {
 		unit = 3
@@ -940,24 +1018,25 @@ func (g *exrecGen) paymentOp() {
 	ps := g.payments()
 	pick := func() (string, string, string) { // source, ext, target of an existing payment (or random)
 		if len(ps) == 0 || g.rng.Chance(10) {
-			return Pick(g.rng, exrecOwners), g.ext(), Pick(g.rng, exrecOwners)
+			return g.acct(Pick(g.rng, exrecOwners)), g.ext(), g.acct(Pick(g.rng, exrecOwners))
 		}
 		p := Pick(g.rng, ps)
-		return g.e.nameOfBech(p.Source), exrecShowExt(p.ExternalId), g.e.nameOfBech(p.Target)
+		return g.respell(g.e.spelledName(p.Source)), exrecShowExt(p.ExternalId), g.respell(g.e.spelledName(p.Target))
 	}
 	switch r := g.rng.Intn(100); {
 	case r < 45 || len(ps) == 0:
-		t := Pick(g.rng, append([]string{"-", "-"}, exrecOwners...))
+		// targets are written in the upper-case spelling in a quarter of the creations
+		t := g.acctP(Pick(g.rng, append([]string{"-", "-"}, exrecOwners...)), 25)
 		a, ta := g.rng.Intn(4), g.rng.Intn(3)
 		x := g.ext()
 		if g.rng.Chance(30) {
 			x = "~"
 		}
-		src := Pick(g.rng, exrecOwners)
+		src := g.acct(Pick(g.rng, exrecOwners))
 		if len(ps) > 0 && g.rng.Chance(30) {
 			// a create for the (source, external id) of a payment that exists: must be refused
 			p := Pick(g.rng, ps)
-			src, x = g.e.nameOfBech(p.Source), exrecShowExt(p.ExternalId)
+			src, x = g.respell(g.e.spelledName(p.Source)), exrecShowExt(p.ExternalId)
 			g.out.Count("branch:pay_existing_key")
 			if p.ExternalId == "" {
 				g.out.Count("branch:pay_existing_key_empty_ext")
@@ -967,23 +1046,23 @@ func (g *exrecGen) paymentOp() {
 	case r < 55:
 		s, x, t := pick()
 		if g.rng.Chance(20) {
-			t = Pick(g.rng, append([]string{"-"}, exrecOwners...))
+			t = g.acct(Pick(g.rng, append([]string{"-"}, exrecOwners...)))
 		}
 		g.emit(fmt.Sprintf("payaccept s=%s x=%s t=%s", s, x, t))
 	case r < 65:
 		s, x, t := pick()
 		if g.rng.Chance(20) {
-			t = Pick(g.rng, exrecOwners)
+			t = g.acct(Pick(g.rng, exrecOwners))
 		}
 		g.emit(fmt.Sprintf("payreject t=%s s=%s x=%s", t, s, x))
 	case r < 72:
 		s, _, t := pick()
 		srcs := []string{s}
 		if g.rng.Chance(40) {
-			srcs = append(srcs, Pick(g.rng, exrecOwners))
+			srcs = append(srcs, g.acct(Pick(g.rng, exrecOwners)))
 		}
 		g.emit(fmt.Sprintf("payrejectall t=%s s=%s", t, strings.Join(srcs, "|")))
-	case r < 82:
+	case r < 80:
 		s, x, _ := pick()
 		xs := []string{x}
 		if g.rng.Chance(40) {
@@ -991,8 +1070,35 @@ func (g *exrecGen) paymentOp() {
 		}
 		g.emit(fmt.Sprintf("paycancel s=%s x=%s", s, strings.Join(xs, "|")))
 	default:
-		s, x, _ := pick()
-		g.emit(fmt.Sprintf("paytarget s=%s x=%s t=%s", s, x, Pick(g.rng, append([]string{"-"}, exrecOwners...))))
+		// a target change; prefer payments whose stored target is not the canonical spelling, and
+		// often "change" the target to the account it already is (either spelling)
+		p := Pick(g.rng, ps)
+		var ups []*exchange.Payment
+		for _, q := range ps {
+			if exrecUp(g.e.spelledName(q.Target)) {
+				ups = append(ups, q)
+			}
+		}
+		if len(ups) > 0 && g.rng.Chance(70) {
+			p = Pick(g.rng, ups)
+		}
+		s, x, cur := g.respell(g.e.spelledName(p.Source)), exrecShowExt(p.ExternalId), g.e.spelledName(p.Target)
+		if g.rng.Chance(8) {
+			s, x = g.acct(Pick(g.rng, exrecOwners)), g.ext()
+		}
+		nt := g.acct(Pick(g.rng, append([]string{"-"}, exrecOwners...)))
+		sameP := 40
+		if exrecUp(cur) {
+			sameP = 65
+		}
+		if cur != "~" && g.rng.Chance(sameP) {
+			nt = g.acctP(exrecBase0(cur), 30)
+			g.out.Count("branch:paytarget_same_account")
+			if exrecUp(cur) {
+				g.out.Count("branch:paytarget_respelled")
+			}
+		}
+		g.emit(fmt.Sprintf("paytarget s=%s x=%s t=%s", s, x, nt))
 	}
 }
 
@@ -1019,8 +1125,8 @@ func (g *exrecGen) qBattery(exhaustive int, sampled int) {
 		ls = append(ls, listing{"market", m, count(func(o *exchange.Order) bool { return int(o.GetMarketID()) == mid })})
 	}
 	for _, o := range exrecOwners {
-		s := g.e.addrStr(o)
-		ls = append(ls, listing{"owner", o, count(func(x *exchange.Order) bool { return x.GetOwner() == s })})
+		o := o
+		ls = append(ls, listing{"owner", o, count(func(x *exchange.Order) bool { return g.e.nameOfBech(x.GetOwner()) == o })})
 	}
 	for _, d := range exrecAssets {
 		ls = append(ls, listing{"asset", d, count(func(x *exchange.Order) bool { return strings.HasPrefix(x.GetAssets().Denom, d) })})
@@ -1028,13 +1134,12 @@ func (g *exrecGen) qBattery(exhaustive int, sampled int) {
 	ls = append(ls, listing{"all", "-", len(os)})
 	ps := g.payments()
 	for _, o := range exrecOwners {
-		s := g.e.addrStr(o)
 		ns, nt := 0, 0
 		for _, p := range ps {
-			if p.Source == s {
+			if g.e.nameOfBech(p.Source) == o {
 				ns++
 			}
-			if p.Target == s {
+			if g.e.nameOfBech(p.Target) == o {
 				nt++
 			}
 		}
@@ -1067,7 +1172,11 @@ func (g *exrecGen) qBattery(exhaustive int, sampled int) {
 		if g.rng.Chance(30) {
 			ct = 1
 		}
-		g.emit(fmt.Sprintf("q kind=%s arg=%s ty=%s after=%d rev=%d mode=%s limit=%d ct=%d", l.kind, l.arg, ty, after, rev, mode, limit, ct))
+		arg := l.arg
+		if l.kind == "owner" || l.kind == "paysrc" || l.kind == "paytgt" {
+			arg = g.acct(arg) // listings go by account, whatever the spelling of the argument
+		}
+		g.emit(fmt.Sprintf("q kind=%s arg=%s ty=%s after=%d rev=%d mode=%s limit=%d ct=%d", l.kind, arg, ty, after, rev, mode, limit, ct))
 		g.out.Count("q:" + l.kind)
 		g.out.Count("q:mode:" + mode + ":rev" + strconv.Itoa(rev))
 		if ty != "-" {
@@ -1136,10 +1245,10 @@ func (g *exrecGen) history(thorough bool) {
 				// the owner cancels
 				idn, _ := strconv.ParseUint(id, 10, 64)
 				if o, _ := g.e.k.GetOrder(g.e.ctx, idn); o != nil {
-					by = g.e.nameOfBech(o.GetOwner())
+					by = g.respell(g.e.spelledName(o.GetOwner()))
 				}
 			} else if g.rng.Chance(30) {
-				by = Pick(g.rng, exrecOwners)
+				by = g.acct(Pick(g.rng, exrecOwners))
 			}
 			g.emit("cancel id=" + id + " by=" + by)
 		case r < 56:
@@ -1157,25 +1266,48 @@ func (g *exrecGen) history(thorough bool) {
 		case r < 86:
 			g.paymentOp()
 		case r < 91:
-			g.emit(fmt.Sprintf("commit m=%s o=%s a=%d", g.market(), Pick(g.rng, exrecOwners), g.rng.Intn(5)))
+			g.emit(fmt.Sprintf("commit m=%s o=%s a=%d", g.market(), g.acct(Pick(g.rng, exrecOwners)), g.rng.Intn(5)))
 		case r < 94:
 			m, o := g.market(), Pick(g.rng, exrecOwners)
 			var cs []exchange.Commitment
 			g.e.k.IterateCommitments(g.e.ctx, func(c exchange.Commitment) bool { cs = append(cs, c); return false })
 			if len(cs) > 0 && g.rng.Chance(85) {
 				c := Pick(g.rng, cs)
-				m, o = strconv.Itoa(int(c.MarketId)), g.e.nameOfBech(c.Account)
+				m, o = strconv.Itoa(int(c.MarketId)), g.acct(g.e.nameOfBech(c.Account))
 			}
 			g.emit(fmt.Sprintf("release m=%s o=%s a=%d by=%s", m, o, g.rng.Intn(4), g.admin()))
-		case r < 96:
+		case r < 95:
 			g.emit(fmt.Sprintf("accepting m=%s v=%d by=%s", g.market(), g.rng.Intn(2), g.admin()))
-		case r < 99:
+		case r < 96:
+			by := g.admin()
+			if g.rng.Chance(30) {
+				by = "gov" // only the authority may switch commitments back on (no commitment fees defined)
+			}
+			g.emit(fmt.Sprintf("acceptingc m=%s v=%d by=%s", g.market(), g.rng.Intn(2), by))
+		case r < 98:
 			res := g.emit("mkmarket id=" + Pick(g.rng, []string{"0", "0", "2", "4"}) + " name=late")
 			if f := strings.Fields(res); len(f) >= 2 && f[0] == "ok" {
 				g.mkts = append(g.mkts, f[1])
 			}
 		default:
-			g.emit("close m=" + g.market())
+			// a governance closure, mostly of a market that has orders; in half of the cases order and/or
+			// commitment creation were switched off earlier (a paused market is closed)
+			m := g.market()
+			if os := g.openOrders(); len(os) > 0 && g.rng.Chance(70) {
+				m = strconv.Itoa(int(Pick(g.rng, os).GetMarketID()))
+			}
+			if g.rng.Chance(50) {
+				g.out.Count("branch:close_after_pause")
+				if g.rng.Chance(75) {
+					g.emit(fmt.Sprintf("accepting m=%s v=0 by=%s", m, g.admin()))
+					g.emit("raw")
+				}
+				if g.rng.Chance(50) {
+					g.emit(fmt.Sprintf("acceptingc m=%s v=0 by=%s", m, g.admin()))
+					g.emit("raw")
+				}
+			}
+			g.emit("close m=" + m)
 		}
 		g.emit("raw")
 		if g.rng.Chance(50) {
@@ -1192,10 +1324,10 @@ func (g *exrecGen) history(thorough bool) {
 				gm, gx = strconv.Itoa(int(o.GetMarketID())), exrecShowExt(o.GetExternalID())
 			}
 			g.emit(fmt.Sprintf("getext m=%s x=%s", gm, gx))
-			ps, px := Pick(g.rng, exrecOwners), g.ext()
+			ps, px := g.acct(Pick(g.rng, exrecOwners)), g.ext()
 			if pays := g.payments(); len(pays) > 0 && g.rng.Chance(60) {
 				p := Pick(g.rng, pays)
-				ps, px = g.e.nameOfBech(p.Source), exrecShowExt(p.ExternalId)
+				ps, px = g.respell(g.e.spelledName(p.Source)), exrecShowExt(p.ExternalId)
 			}
 			g.emit(fmt.Sprintf("getpay s=%s x=%s", ps, px))
 		}
